@@ -480,6 +480,9 @@ func (s *Store[H]) flushLoop(ctx context.Context) {
 		// re-initialize from what is about to be written, flush relies on both pointers being set
 		slices.SortFunc(toFlush, func(a, b H) int { return cmp.Compare(a.Height(), b.Height()) })
 		s.ensureInit(toFlush)
+		// the pointers start at the lowest header: move them over what is contiguous
+		s.advanceHead(ctx)
+		s.recedeTail(ctx)
 
 		for i := 0; ; i++ {
 			err := s.flush(ctx, toFlush...)
